@@ -15,6 +15,8 @@
 (*  Run(id, k, exit, out)           gm2calc.x on the k-th rendering of a   *)
 (*                                  complete input (k = 0: reference)      *)
 (*  Key(fmt, block, key, ...)       single documented key changed          *)
+(*  Config(k, tok, n2, exc, stored) one GM2CalcConfig entry, every value   *)
+(*                                  at and around the documented range     *)
 (*                                                                         *)
 (* Invariants                                                              *)
 (*  CaseConsistent  den/err in the event = Denote/DenoteErr of SLHAContent *)
@@ -203,7 +205,22 @@ TKey ==
      IN /\ viol' = viol \o Failed(invs, l, ev.sig) /\ nchecked' = nchecked + 4
   /\ UNCHANGED <<cas, canon, ref>> /\ l' = l + 1
 
-Next == TCase \/ TCanon \/ TLayout \/ TRun \/ TKey
+\* GM2CalcConfig: one entry with one value token; n2 = twice the value (halves are representable), tok = "num" for
+\* a finite number, "nan" for a token that is not a finite number.  Documented ranges (README, GM2CalcConfig):
+\* [0] 0..4, [1] 0..2, [2]..[6] 0 or 1.  Invalid: rejected with an error; valid: stored as given.
+CfgRange(k) == CASE k = 0 -> 0..4 [] k = 1 -> 0..2 [] OTHER -> 0..1
+CfgValid(k, tok, n2) == tok = "num" /\ n2 >= 0 /\ n2 % 2 = 0 /\ (n2 \div 2) \in CfgRange(k)
+TConfig ==
+  /\ l <= NLines /\ TraceLog[l].e = "Config"
+  /\ LET ev == TraceLog[l]
+         ok == CfgValid(ev.k, ev.tok, ev.n2)
+         invs == << I("ConfigInvalidRejected", ~ok => ev.exc \in {"EInvalidInput", "EReadError"}),
+                    I("ConfigValidStored", ok => ev.exc = "" /\ ev.stored = ev.n2 \div 2),
+                    I("ConfigOthersDefault", ev.exc = "" => ev.others) >>
+     IN /\ viol' = viol \o Failed(invs, l, ev.sig) /\ nchecked' = nchecked + 3
+  /\ UNCHANGED <<cas, canon, ref>> /\ l' = l + 1
+
+Next == TCase \/ TCanon \/ TLayout \/ TRun \/ TKey \/ TConfig
 Spec == Init /\ [][Next]_vars
 Report == l = NLines + 1 => WriteReport(l, viol, [nchecked |-> nchecked])
 =============================================================================
